@@ -38,9 +38,10 @@ Definition exact_hit (d div : Z) : bool :=
 Definition span (m : meas) : Z * Z := (m_start m, m_end m).
 Definition spans (ms : list meas) : list (Z * Z) := map span ms.
 
-(* preconditions on the existing measures relative to one stretch [a, b) *)
-Definition ex_ok (ex : list (Z * Z)) (a b : Z) : Prop :=
-  forall m, In m ex -> fst m < snd m /\ (a <= fst m < b -> snd m <= b).
+(* existing measures are non-empty and lie within the extent of the part *)
+Definition ex_pos (ex : list (Z * Z)) : Prop := forall m, In m ex -> fst m < snd m.
+Definition ex_within (ex : list (Z * Z)) (first last : Z) : Prop :=
+  forall m, In m ex -> first <= fst m /\ snd m <= last.
 
 
 Definition new_ok (ex : list (Z * Z)) (bl : Q) (last ts_end : Z) (m : meas) : Prop :=
@@ -53,10 +54,6 @@ Definition st_span (s : Z * Z * Q) : Z * Z := (fst (fst s), snd (fst s)).
 Definition st_bl (s : Z * Z * Q) : Q := snd s.
 
 
-(* every stretch satisfies the precondition on existing measures *)
-Definition ex_ok_all (ex : list (Z * Z)) (ss : list (Z * Z * Q)) : Prop :=
-  forall s, In s ss -> ex_ok ex (fst (st_span s)) (snd (st_span s)).
-
 Definition new_ok_all (ex : list (Z * Z)) (last : Z) (ss : list (Z * Z * Q)) (m : meas) : Prop :=
   m_old m = false ->
   exists s, In s ss /\ fst (st_span s) <= m_start m < snd (st_span s)
@@ -68,9 +65,11 @@ Definition ts_ok (tsigs : list (Z * Z * Z)) (first last : Z) : Prop :=
   /\ Forall (fun r => first <= row_t r <= last) tsigs.
 
 
-Definition pre (tsigs : list (Z * Z * Z)) (first last : Z) (ex : list (Z * Z)) (div : Z) : Prop :=
-  ts_ok tsigs first last /\ ex_ok_all ex (stretches div tsigs first last).
-
+(* the hypotheses of the add_measures theorems: signatures strictly sorted within [first, last],
+   first < last, existing measures non-empty and within [first, last].  An existing measure may
+   run across a signature change. *)
+Definition pre (tsigs : list (Z * Z * Z)) (first last : Z) (ex : list (Z * Z)) : Prop :=
+  ts_ok tsigs first last /\ ex_pos ex /\ ex_within ex first last.
 
 (* existing measures are listed in time order and do not overlap *)
 Definition ex_sorted (ex : list (Z * Z)) : Prop := StronglySorted (fun x y => snd x <= fst y) ex.
